@@ -1,15 +1,22 @@
-def mk(name, entry, n, tier, fn, canaries=()):
-    return dict(name=name, properties=["C15"], entry=entry, mode="plain", units=["harness.c"], defines=["NMAX=%d" % n],
-                unwind=n + 3, tier=tier, timeout=1200, min_tagged=3,
-                title="prioq.c %s: heap order, size and multiset preserved for every heap of <= %d elements" % (fn, n + 1),
+def mk(name, entry, n, tier, fn, count, canaries=(), timeout=900):
+    return dict(name=name, properties=["C15"], entry=entry, mode="plain", units=["harness.c"],
+                defines=["NMAX=%d" % n] + ([] if count else ["NOCOUNT"]),
+                unwind=n + 3, cbmc_unwindset=["%s.0:8" % fn], backend="kissat", tier=tier, timeout=timeout, min_tagged=3,
+                title="prioq.c %s: heap order%s for every heap of <= %d elements" % (fn, ", size and multiset of elements preserved" if count else " and size", n + 1),
                 functions=["prioq.c:" + fn, "prioq.c:prioq_min"],
-                bounded="heaps of at most %d elements, arbitrary keys and ids; loops fully unwound (unwinding assertions pass)" % (n + 1),
+                bounded="heaps of at most %d elements, arbitrary 64-bit keys and ids; loops fully unwound (unwinding assertions pass)%s" % (n + 1, "" if count else "; multiset preservation checked in the smaller run"),
                 canaries=list(canaries))
 PROOFS = [
-    mk("prioq_insert_b", "h_insert", 31, "quick", "prioq_insert",
+    mk("prioq_insert_b", "h_insert", 15, "quick", "prioq_insert", False,
        [dict(name="parent-index-wrong", file="prioq.c", literal=True, pattern="i = (j - 1)/2;", repl="i = j/2;", expect=r"C15")]),
-    mk("prioq_delmin_b", "h_delmin", 31, "quick", "prioq_delmin",
+    mk("prioq_delmin_b", "h_delmin", 15, "quick", "prioq_delmin", False,
        [dict(name="child-choice-inverted", file="prioq.c", literal=True, pattern="if (pq->p[j - 1].dt <= pq->p[j].dt) --j;", repl="if (pq->p[j - 1].dt > pq->p[j].dt) --j;", expect=r"C15")]),
-    mk("prioq_insert_b255", "h_insert", 255, "thorough", "prioq_insert"),
-    mk("prioq_delmin_b255", "h_delmin", 255, "thorough", "prioq_delmin"),
+    mk("prioq_insert_m", "h_insert", 7, "quick", "prioq_insert", True,
+       [dict(name="last-store-dropped", file="prioq.c", literal=True, pattern=" pq->p[j] = *pe;\n return 1;", repl=" if (j) pq->p[j] = *pe;\n return 1;", expect=r"C15")]),
+    mk("prioq_delmin_m", "h_delmin", 7, "quick", "prioq_delmin", True,
+       [dict(name="last-element-lost", file="prioq.c", literal=True, pattern=" pq->p[i] = pq->p[n];\n pq->len = n;", repl=" if (i) pq->p[i] = pq->p[n];\n pq->len = n;", expect=r"C15")]),
+    mk("prioq_insert_b31", "h_insert", 31, "thorough", "prioq_insert", False, timeout=1800),
+    mk("prioq_delmin_b31", "h_delmin", 31, "thorough", "prioq_delmin", False, timeout=3600),
+    mk("prioq_insert_m15", "h_insert", 15, "thorough", "prioq_insert", True, timeout=1800),
+    mk("prioq_delmin_m15", "h_delmin", 15, "thorough", "prioq_delmin", True, timeout=3600),
 ]
